@@ -29,10 +29,13 @@ ASSUMPTIONS = ["with an entity_id the label is optional (update); without one it
 
 ENT = xf.ENT
 DATASETS = [("trees", True), ("my_list", True), ("a-b", True), ("Ünï", True), ("t1", True), ("__reserved", False), ("with.dot", False), ("1start", False),
-            ("has space", False), ("_ok", True), ("x:y", True), ("a/b", False)]
+            ("has space", False), ("_ok", True), ("x:y", True), ("a/b", False),
+            # letters of the Latin-1 block on either side of the multiplication sign (U+00D7, not a name character)
+            ("\u00d6l", True), ("\u00c0rbres", True), ("ca\u00d1a", True), ("\u00c0-\u00d6]x", False), ("a\u00d7b", False)]
 PROPS = [("prop_a", True), ("a-b", True), ("name", False), ("Label", False), ("__x", False), ("1x", False), ("has space", False), ("_p", True), ("NAME", False), ("ok.dot", True),
          # property names that happen to be yes/no words: names, not truth values
-         ("yes", True), ("No", True), ("TRUE", True), ("false", True), ("true", True)]
+         ("yes", True), ("No", True), ("TRUE", True), ("false", True), ("true", True),
+         ("\u00d1and\u00fa", True), ("\u00c0-\u00d6]p", False)]
 SHAPES = ["literal", "ref", "ref-in-group", "smart-quotes"]
 PLACEMENTS = ["none", "top", "group", "repeat", "on-group", "repeat>group", "group>repeat", "group>group", "on-repeat", "repeat>repeat>group", "or-other-select"]
 
